@@ -178,6 +178,27 @@ def run(ck):
                 all(f2b(p[0]) == f2b(float(q[0])) and f2b(p[1]) == f2b(float(q[1])) for p, q in zip(model, rows)))
         if not same:
             disagreements.append(dict(kind='far', zen=zen, azi=azi, model_rows=len(model), impl_rows=len(rows)))
+    # an Angle object is plain data: changing its attributes between requests must be honoured
+    from mininec.mininec import Angle
+    for _ in range(N_far // 2):
+        z1 = [0.0, dec(rng), rng.randint(1, 12)]
+        z2 = [dec(rng), dec(rng) * rng.choice([1, -1]), rng.randint(1, 12)]
+        a1 = [0.0, 10.0, rng.randint(1, 6)]
+        zen, azi = Angle(*z1), Angle(*a1)
+        r = run_main(BASE, want_mininec=True); m = r['m']; m.compute()
+        m.compute_far_field(zen, azi)
+        zen.initial, zen.inc, zen.number = z2
+        m.compute_far_field(zen, azi)
+        ff = m.far_field
+        rows = list(zip(ff.zen.flat, ff.azi.flat))
+        az = [b2f(t) for t in d.ask('grid angles', f2b(z2[0]), f2b(z2[1]), z2[2]).split()]
+        aa = [b2f(t) for t in d.ask('grid angles', f2b(a1[0]), f2b(a1[1]), a1[2]).split()]
+        order = [tuple(int(x) for x in t.split(',')) for t in d.ask('grid fartable', z2[2], a1[2]).split()]
+        model = [(az[i], aa[j]) for (i, j) in order]
+        ck.case(('far-reuse', tuple(z1), tuple(z2), tuple(a1)), True)
+        same = (len(model) == len(rows) and all(f2b(p[0]) == f2b(float(q[0])) and f2b(p[1]) == f2b(float(q[1])) for p, q in zip(model, rows)))
+        if not same:
+            disagreements.append(dict(kind='far', zen=z2, azi=a1, model_rows=len(model), impl_rows=len(rows), reuse_from=z1))
     ck.cov['rule'] = ('near-field grids (start, increment decimals with 1-3 digits incl. negative steps, counts 1..%d) and '
                       'far-field angle lists compared bit for bit between implementation and Lean model; '
                       'non-trivial = more than one point; distinct = distinct parameter tuples' % (100 if ck.tier == 'thorough' else 40))
@@ -201,6 +222,22 @@ def run(ck):
                     found = True
                     break
             else:
+                if 'reuse_from' in dg:
+                    from mininec.mininec import Angle
+                    zen, azi = Angle(*dg['reuse_from']), Angle(*dg['azi'])
+                    r = run_main(BASE, want_mininec=True); m = r['m']; m.compute()
+                    m.compute_far_field(zen, azi)
+                    zen.initial, zen.inc, zen.number = dg['zen']
+                    m.compute_far_field(zen, azi)
+                    ff = m.far_field
+                    rows = list(zip(ff.zen.flat, ff.azi.flat))
+                    bad = prop_far(dg['zen'], dg['azi'], rows, ff.gain.reshape(-1, 3).shape[0], len(ff.db_as_mininec().split('\n')))
+                    if bad:
+                        ck.violation(dict(kind='far-reuse', zen=dg['zen'], azi=dg['azi'], reuse_from=dg['reuse_from'],
+                                          observed=bad + ' (Angle object re-used after changing its attributes)'))
+                        found = True
+                        break
+                    continue
                 bad = prop_far(dg['zen'], dg['azi'], *impl_far(dg['zen'], dg['azi']))
                 if bad:
                     ck.violation(dict(kind='far', zen=dg['zen'], azi=dg['azi'], observed=bad))
